@@ -28,6 +28,8 @@ BUDGET = {"quick": 30, "thorough": 600}
 REFERENCE_MODELS = ["work at the first rung of the ladder (the same subject, shorter history)"]
 MEASURED = ("indicators/", "analysis/", "utils/candles.py", "utils/indexing.py", "core/indicator.py")
 N0 = 150
+MEM_PER_CANDLE = 2      # bytes of transient allocation per extra candle of history that count as growth
+MEM_SLACK = 1024        # (a pointer copy of the list costs 8 per candle; the unchanged tree grows by 0)
 MIN_HISTORY = 100
 M = 8
 RULE = ("one ladder per run: a history of N0*(1,2,4,8[,16]) candles built through the seeded feed (chunks, drops, "
@@ -37,7 +39,10 @@ RULE = ("one ladder per run: a history of N0*(1,2,4,8[,16]) candles built throug
 ASSUMPTIONS = ["work = interpreter control-flow events (PY_START + JUMP + BRANCH) in the indicator / analysis / utils / "
                "core.indicator files (LINE events are not bit-stable between executions in one process); "
                "candle_manager re-collapse is O(n) per append by construction and is excluded, as the property's "
-               "observe_at names indicator work"]
+               "observe_at names indicator work",
+               "second meter: transient memory (tracemalloc peak above entry level) of one append, minimum over the "
+               "8 measured appends of a rung, compared between rungs for subjects without a timeframe: it sees work "
+               "done below the interpreter (a C-level copy of the candle list) that executes no Python branch"]
 
 _METER = None
 
@@ -78,6 +83,11 @@ def plan(seed, subbatch):
         members = [st, dep]
     elif kind == "indicator":
         spec = sample_spec(cfg, max_period=20)
+        if cfg.random() < 0.08:
+            # an Amorph over an analysis callable written by the USER (not a shipped function)
+            fn = cfg.choice(("user:close_delta", "user:range_mean", "user:body_dict"))
+            spec = {"cls": "Amorph", "analysis": fn, "common": {},
+                    "params": ({"length": cfg.randint(2, 9)} if fn == "user:range_mean" else {})}
         if tf:
             spec["common"]["timeframe"] = tf
         members = [spec]
@@ -167,6 +177,7 @@ def execute(trace, ctx=None):
         delivered = 0
         last_ts = None
         measured = []   # (history, max lines, max calls, per-append lines)
+        mems = []       # per rung: the SMALLEST transient memory of the 8 measured appends
         warm_all = True
         for i, op in enumerate(trace["ops"]):
             run.op_index = i
@@ -187,6 +198,7 @@ def execute(trace, ctx=None):
                 elif kind == "measure":
                     per = []
                     calls = []
+                    mem = []
                     mt = meter()
                     for row in op["candles"]:
                         if last_ts is not None and row[0] < last_ts:
@@ -194,15 +206,17 @@ def execute(trace, ctx=None):
                         last_ts = row[0]
                         delivered += 1
                         c = mk_candles([row])
-                        lines, ncalls = mt.measure(subject.append, c)
+                        lines, ncalls, nbytes = mt.measure_with_memory(subject.append, c)
                         per.append(lines)
                         calls.append(ncalls)
+                        mem.append(nbytes)
                     if not per:
                         continue
                     n_candles = len(inds[0].candles)
                     # which members had a reading on the newest candle (None vs value takes different paths)
                     state = tuple(ind.candles[-1].indicators.get(ind.name) is None for ind in inds if ind.candles)
                     measured.append((n_candles, max(per), max(calls), per, state))
+                    mems.append(min(mem))
                     for k, ind in enumerate(inds):
                         v = ind.candles[-1].indicators.get(ind.name) if ind.candles else None
                         if v is None and not (cfg.get("sparse") and k == 1):
@@ -219,7 +233,16 @@ def execute(trace, ctx=None):
         base_n, base_lines, base_calls, _, base_state = measured[0]
         run.observe([(n, l, c) for n, l, c, _p, _s in measured])
         comparable = 0
-        for n, lines, calls, per, state in measured[1:]:
+        has_tf = any(m["common"].get("timeframe") for m in cfg["members"])
+        for k, (n, lines, calls, per, state) in enumerate(measured[1:], 1):
+            if not has_tf and state == base_state and mems[k] > mems[0] + MEM_PER_CANDLE * (n - base_n) + MEM_SLACK:
+                # base-timeframe managers extend their list in place: nothing in one append may allocate
+                # in proportion to the history (the occasional list re-allocation is amortised and hits at
+                # most one of the eight measured appends, hence the minimum).  Timeframe managers rebuild
+                # their list on every append by construction and are excluded (see ASSUMPTIONS).
+                raise Violation("memory-grows-with-history", label, "transient-bytes",
+                                {"ladder": [(a, m) for (a, *_r), m in zip(measured, mems)],
+                                 "limit": mems[0] + MEM_PER_CANDLE * (n - base_n) + MEM_SLACK})
             if state != base_state:
                 # a member had no reading at one rung and one at the other (legitimately different code
                 # path, e.g. a dependant of Supertrend.short): not comparable, reported
